@@ -115,7 +115,7 @@ def add_noise(self, v_mean, v_std):
 
 def raises_guarded(I, fi):
     """conditions under which the function raises"""
-    return [e for e in I.events if e.kind == 'raise' and e.func.short == fi.short]
+    return [e for e in I.events if e.kind == 'raise' and e.owner == fi.short]
 
 
 def run(ctx):
@@ -145,7 +145,7 @@ def run(ctx):
     ctx.clause = 'D2'
     for fi, II, rr in ((an, I, r), (ao, I2, r2)):
         adds = [e for e in II.events if e.kind == 'store' and e.data.get('target') == 'attr' and e.data.get('name') == 'data'
-                and e.func.short == fi.short]
+                and e.owner == fi.short]
         ctx.require(adds, f'{fi.short}: no accumulation into self.data found')
         ok = len(adds) == 1 and adds[0].data.get('aug') == 'Add'
         ctx.ob('AGREE', 'data is changed exactly once, by in-place addition', fi, ok, {'stores': [e.text() for e in adds]},
